@@ -103,6 +103,21 @@ def run(ctx, replay):
             ctx.model_check(D, "ConnLock", cl % (C3, R2, 2, "") + inv, "conn_design_2")
             ctx.expect_counterexample(D, "ConnLock", cl % (C3, R2, 1, '"CleanupReleasesRunningTasks"') + inv, "conn_cex_running")
             ctx.expect_counterexample(D, "ConnLock", cl % (C3, R2, 1, '"ExitForgetsPendingGrants"') + inv, "conn_cex_pending")
+            # unbounded in the length of behaviours: Apalache discharges an inductive invariant of the design (ConnLockInd.tla)
+            import subprocess
+            import time
+            t0 = time.time()
+            outd = os.path.join(ctx.work, "apalache")
+            steps = [("base", ["--init=Init", "--inv=IndInv", "--length=0"]), ("step", ["--init=IndInit", "--inv=IndInv", "--length=1"]),
+                     ("implies-safety", ["--init=IndInit", "--inv=Safety", "--length=0"])]
+            for name, args in steps:
+                p = subprocess.run(["timeout", "1200", "apalache-mc", "check", "--cinit=ConstInit", "--out-dir=" + outd] + args + ["ConnLockInd.tla"],
+                                   cwd=D, stdout=subprocess.PIPE, stderr=subprocess.STDOUT, text=True)
+                if "EXITCODE: OK" not in p.stdout:
+                    vlib.log(p.stdout[-2000:])
+                    raise vlib.ToolError("Apalache: obligation %s of the inductive invariant of ConnLockInd.tla not discharged" % name)
+            ctx.cov["model_runs"].append({"module": "ConnLockInd", "tool": "apalache-mc 0.58", "role": "inductive invariant (base, step, implies Safety) for 3 connections, 3 rooms, limit 1..3",
+                                          "obligations": 3, "wall_s": round(time.time() - t0, 1)})
             cscen = []
             for (k, n) in ([(1, 7)] if quick else [(1, 9), (2, 9)]):
                 hs = ctx.generate(D, "Gen_ConnLock", cl % (C3, R2, k, '"CleanupReleasesRunningTasks", "ExitForgetsPendingGrants"') +
